@@ -125,6 +125,46 @@ def indirect_store_cases():
     return cases
 
 
+def indirect_step_cases():
+    """++ / -- / += through an indirection at the boundary of the target's type: one step inside the range is stored, the
+    step that leaves it stops the program (an unsigned target at 0 stays 0 under --)"""
+    cases = []
+    TY = {"tiny": (-128, 127), "short": (-32768, 32767), "int": (-2**31, 2**31 - 1), "unsigned int": (0, 2**32 - 1)}
+    for ty, (lo, hi) in TY.items():
+        tn = ty.replace(" ", "_")
+        pre = ("struct S_%s { int pad; %s m; };\nvoid bump(%s* p) { (*p)++; }\nvoid drop(%s* p) { --(*p); }\n"
+               "void radd(%s& r, int k) { r += k; }\n" % (tn, ty, ty, ty, ty))
+        for start, up in [(hi - 1, True), (hi, True), (lo + 1, False), (lo, False)]:
+            end = start + 1 if up else start - 1
+            forms = [
+                ("ptr-step", "    %s x = %d;\n    %s* p = &x;\n    %s;\n" % (ty, start, ty, "(*p)++" if up else "(*p)--"), "x"),
+                ("ptr-prestep", "    %s x = %d;\n    %s* p = &x;\n    %s;\n" % (ty, start, ty, "++(*p)" if up else "--(*p)"), "x"),
+                ("ptrparam-step", "    %s x = %d;\n    %s(&x);\n" % (ty, start, "bump" if up else "drop"), "x"),
+                ("ref-step", "    %s x = %d;\n    %s;\n" % (ty, start, "radd(x, 1)" if up else "radd(x, -1)"), "x"),
+                ("arrow-step", "    S_%s s;\n    s.m = %d;\n    S_%s* q = &s;\n    q->m %s 1;\n" % (tn, start, tn, "+=" if up else "-="), "s.m"),
+                ("structarr-step", "    S_%s[2] oa;\n    oa[1].m = %d;\n    oa[1].m%s;\n" % (tn, start, "++" if up else "--"), "oa[1].m"),
+            ]
+            if ty in ("int", "unsigned int"):
+                # pointers to elements of tiny / short arrays are not supported by the implementation
+                forms += [
+                    ("elemptr-step", "    %s[2] a = [0, %d];\n    %s* p = &a[1];\n    %s;\n" % (ty, start, ty, "(*p)++" if up else "(*p)--"), "a[1]"),
+                    ("elemptr-prestep", "    %s[2] a = [0, %d];\n    %s* p = &a[1];\n    %s;\n" % (ty, start, ty, "++(*p)" if up else "--(*p)"), "a[1]"),
+                ]
+                if ty == "int":
+                    # &a[1] of an unsigned array as a pointer argument is not supported (null pointer error)
+                    forms.append(("elemptrparam-step", "    %s[2] a = [0, %d];\n    %s(&a[1]);\n" % (ty, start, "bump" if up else "drop"), "a[1]"))
+            for name, body, show in forms:
+                prog = pre + "int main() {\n" + body + "    println(%s);\n    println(\"END\");\n    return 0;\n}\n" % show
+                cid = "%s-%s-%d-%s" % (tn, name, start, "up" if up else "down")
+                if lo <= end <= hi:
+                    cases.append({"id": cid, "program": prog, "expect_class": "ok", "expect_stdout": "%d\nEND\n" % end})
+                elif lo == 0 and end < 0:
+                    cases.append({"id": cid, "program": prog, "expect_class": "ok", "expect_stdout": "0\nEND\n"})
+                else:
+                    cases.append({"id": cid, "program": prog, "expect_class": "error", "expect_stdout": ""})
+    return cases
+
+
 def main(a):
     c = RefCheck(PID, a, ["CbGen", "CbProofs", "CbProps.C04", "CbOblig.C04"], THEOREMS, translators=["ranges"])
     if not c.build():
@@ -181,6 +221,7 @@ def main(a):
                             "(assign (var x) (tern (var c) %s %s)) (print (e (var x))) (print (s \"END\")) (ret (lit 0))))))" % (ty, cond, a_, b_))
     c.suite("ternary-assignment", tern, nontrivial=lambda r: hash(r.sexp), max_report=4, shrink=False)
     c.raw_suite("indirect-stores", indirect_store_cases(), max_report=8)
+    c.raw_suite("indirect-steps", indirect_step_cases(), max_report=8)
     n = 500 if quick else 50000
     rnd = [gen_core.gen_program(a.seed, 41, k, c.gates, size=25, features={"narrow": True})[0] for k in range(n)]
     c.suite("random-narrow", rnd, nontrivial=lambda r: hash(r.sexp) if r.status == "exit1:range" else None)
